@@ -11,7 +11,8 @@ PROP = {
                   "yields an accepted width; StatsCollector (min, max, Euclid gcd with fuel proved adequate, rows) bounds all values, is attained, and its wire form reproduces max; all three "
                   "column codecs are proved exact: bit-packed (min + gcd*q), linear (Line::train/eval with wrapping arithmetic, >>32, as i32; exact whatever the line), block-wise linear "
                   "(512-row blocks, one bit packer shared across blocks, reader-side offset recomputation); reported min/max/num_vals are proved for each; range lookup on bit-packed columns is "
-                  "proved to return exactly the rows holding a value in the range unless the range lies below the column minimum, where it is refuted (F81, genuine defect, witness theorem); "
+                  "proved to return exactly the rows holding a value in the range for EVERY range, using the pinned guard `*range.end() < stats.min_value` (COLUMNAR_RANGE_BELOW_MIN_GUARD, proof re-run on the regenerated constant); "
+                  "without the guard it is refuted below the column minimum (F81, fixed in /repo; witness theorem kept as regression, corpus case in the harness); "
                   "i64/bool/f64 mappings are proved inverted and strictly monotone (f64 on bit patterns w.r.t. the sign-magnitude key). "
                   "PARTIAL (executable model tied by cases + list specification evaluated in Coq on the implementation's answers, no general theorem yet): optional index rank/select "
                   "(dense/sparse blocks), multivalued start offsets, compact space for u128 (IP columns: spec level only), stacked/shuffled merge and dictionary-ordinal remapping (spec level only).",
